@@ -92,20 +92,16 @@ func Harness_C15_prefix() {
 	zzverif.Region("prefix-contains-a-letter", letters)
 	q, args := filterQuery("SELECT name FROM refs", []string{prefix}, nil)
 	var matched bool
-	switch {
-	case !zzverif.UnderGosym():
+	if !zzverif.UnderGosym() {
 		matched = zz15Real(prefix, name)
-	case q == "SELECT name FROM refs WHERE name LIKE ?" && len(args) == 1:
-		matched = zz15Like(args[0].(string), name)
-	case q == "SELECT name FROM refs WHERE substr(name, 1, length(?)) = ?" && len(args) == 2:
-		// documented semantics: substr/length count characters, '=' on TEXT uses the
-		// default BINARY collation (case-sensitive, no wildcards)
-		a0, a1 := args[0].(string), args[1].(string)
-		matched = zzverif.And(zz15HasPrefix(name, a1), len(a0) == len(a1))
-	default:
-		// the query no longer has a shape the evaluator understands: decide nothing
-		zzverif.Reach("unmodelled-query")
-		return
+	} else {
+		var ok bool
+		matched, ok = zz15Where(q, args, name)
+		if !ok {
+			// the query no longer has a shape the evaluator understands: decide nothing
+			zzverif.Reach("unmodelled-query")
+			return
+		}
 	}
 	zzverif.Assert("prefix-filter-selects-exactly-the-names-that-literally-start-with-the-prefix", matched == zz15HasPrefix(name, prefix))
 	zzverif.Reach("end")
@@ -146,4 +142,83 @@ func zz15Real(prefix, name string) bool {
 		panic("Filter and FilterKey disagree: " + strings.Join(keys, ","))
 	}
 	return ok
+}
+
+// zz15Where evaluates the single-prefix WHERE clause produced by filterQuery by
+// the documented SQLite semantics of the operator it uses. Understood shapes:
+//   name LIKE ?                      (% _ wildcards, ASCII case-insensitive)
+//   name LIKE ? ESCAPE 'c'           (same, c makes the next character literal)
+//   name GLOB ?                      (* ? wildcards, case-sensitive; '[' sets are not modelled)
+//   substr(name, 1, length(?)) = ?   (character-wise, BINARY collation)
+//   instr(name, ?) = 1               (literal, case-sensitive)
+func zz15Where(q string, args []interface{}, name string) (matched, ok bool) {
+	const head = "SELECT name FROM refs WHERE "
+	if len(q) < len(head) || q[:len(head)] != head {
+		return false, false
+	}
+	cond := q[len(head):]
+	str := func(i int) string { return args[i].(string) }
+	switch {
+	case cond == "name LIKE ?" && len(args) == 1:
+		return zz15Like(str(0), name), true
+	case len(cond) == len("name LIKE ? ESCAPE 'c'") && cond[:len("name LIKE ? ESCAPE '")] == "name LIKE ? ESCAPE '" && cond[len(cond)-1] == '\'' && len(args) == 1:
+		return zz15LikeEsc(str(0), name, cond[len(cond)-2]), true
+	case cond == "name GLOB ?" && len(args) == 1:
+		pat := str(0)
+		for i := 0; i < len(pat); i++ {
+			if pat[i] == '[' {
+				return false, false
+			}
+		}
+		return zz15Glob(pat, name), true
+	case cond == "substr(name, 1, length(?)) = ?" && len(args) == 2:
+		a0, a1 := str(0), str(1)
+		return zzverif.And(zz15HasPrefix(name, a1), len(a0) == len(a1)), true
+	case cond == "instr(name, ?) = 1" && len(args) == 1:
+		return zz15HasPrefix(name, str(0)), true
+	}
+	return false, false
+}
+
+// zz15LikeEsc: LIKE with an escape character (recursive, forks on symbolic characters).
+func zz15LikeEsc(p, n string, esc byte) bool {
+	if len(p) == 0 {
+		return len(n) == 0
+	}
+	c := p[0]
+	if c == esc && len(p) > 1 {
+		return len(n) > 0 && zz15Lower(p[1]) == zz15Lower(n[0]) && zz15LikeEsc(p[2:], n[1:], esc)
+	}
+	if c == '%' {
+		for k := 0; k <= len(n); k++ {
+			if zz15LikeEsc(p[1:], n[k:], esc) {
+				return true
+			}
+		}
+		return false
+	}
+	if c == '_' {
+		return len(n) > 0 && zz15LikeEsc(p[1:], n[1:], esc)
+	}
+	return len(n) > 0 && zz15Lower(c) == zz15Lower(n[0]) && zz15LikeEsc(p[1:], n[1:], esc)
+}
+
+// zz15Glob: GLOB without character sets (case-sensitive).
+func zz15Glob(p, n string) bool {
+	if len(p) == 0 {
+		return len(n) == 0
+	}
+	c := p[0]
+	if c == '*' {
+		for k := 0; k <= len(n); k++ {
+			if zz15Glob(p[1:], n[k:]) {
+				return true
+			}
+		}
+		return false
+	}
+	if c == '?' {
+		return len(n) > 0 && zz15Glob(p[1:], n[1:])
+	}
+	return len(n) > 0 && c == n[0] && zz15Glob(p[1:], n[1:])
 }
